@@ -71,7 +71,7 @@ def refusing_calls(rng, sh):
 
 def run(rep, work, rng, tier):
     common.proof_part(rep, 'C10')
-    n = 60 if tier == 'quick' else 900
+    n = 60 if tier == 'quick' else 4000
     cases = []; kinds = {}
     for i in range(n):
         b = conforming_history(rng, max_frames=rng.choice([2, 4]), snap=False, with_cols=rng.random() < 0.5)
